@@ -303,6 +303,11 @@ def block_job(job):
 PALETTE = (0, 1, 2, 3, 4, 5, 90, 89, 100, 1500, 0xFFA6, 0xFFA5, 0xFF00, 0x7FFF, 0x8000, 0xFFFF, 0x0101)
 
 
+MODELS = {"ES": [b"GW5048-ESA", b"GW3648-EM", b"GW5000S-BP", b"GW3600S-BP", b"GW5048D-ES", b"GW3648D-ES", b"GW5048-EM", b"GW2500-BP"],
+          "ET": [b"GW10K-ET", b"GW25K-ET", b"GW29K9-ET", b"GW6000-EH", b"GW5K-BT", b"GW3600-BH", b"GW8K-ET", b"GW5KL-ET"],
+          "DT": [b"GW10KT-DT", b"GW5000D-NS", b"GW3000-XS", b"GW17KN-DT", b"GW6000-DT", b"GW10K-MS", b"GW25K-MT", b"GW50KS-MT"]}
+
+
 def api_job(job):
     """The same relations on the dictionary returned by the PUBLIC read_runtime_data() (all blocks merged, model filters and
     any post-processing applied) of simulated ET / DT / ES inverters whose registers hold small codes and boundary words."""
@@ -312,15 +317,27 @@ def api_job(job):
     acc = Acc()
     serials = {"ET": [b"9010KETU000W0000", b"9010KETT000W0000", b"929K9ETT00W00001"], "DT": [b"9010KDTU000W0000", b"9010KMSU000W0000"],
                "ES": [b"95048ESU000W0000"]}[fam]
+    es_serials = siminv.es_serials()
     for k in range(lo, hi):
         def image(a, k=k):
             m = mix(seed, k, a)
             return PALETTE[m % len(PALETTE)] if (m >> 8) % 4 else (m >> 12) & 0xFFFF
         cfg = {"family": fam, "serial": serials[k % len(serials)], "rated_power": (10000, 15000, 29900, 30001, 50000, 65535, 0, 3000)[k % 8], "battery_mode": 1, "refuse": [],
                "tcp": bool(k & 1)}
-        inv, sim = siminv.build_direct(cfg, default=image)
         if fam == "ES":
+            cfg["serial"] = es_serials[(k // 3) % len(es_serials)]
+            cfg["firmware"] = (b"02041", b"2214E", b"1107E", b"10107", b"0202 ")[(k // 5) % 5]
+        inv, sim = siminv.build_direct(cfg, default=image)
+        # identification fields nobody pinned: model names of the real product lines (a model-specific branch must still
+        # report derived values that agree with the raw values of the same read)
+        model = MODELS[fam][(k // 2) % len(MODELS[fam])]
+        if fam == "ES":
+            sim.device_info = siminv.es_device_info(firmware=cfg["firmware"], model=model, serial=cfg["serial"])
             sim.runtime[:] = bytes(((image(i) if i % 3 else image(i) >> 8) & 0xFF) for i in range(len(sim.runtime)))
+        elif fam == "ET":
+            sim.set_bytes(0x88b8, siminv.et_device_info(serial=cfg["serial"], model=model, rated_power=cfg["rated_power"], arm=(10, 18, 19, 24)[(k // 7) % 4]))
+        else:
+            sim.set_bytes(0x7531, siminv.dt_device_info(serial=cfg["serial"], model=model))
         acc.case()
         case = {"api": True, "family": fam, "k": k, "seed": seed}
         try:
